@@ -83,15 +83,25 @@ fn any_filters() -> Filters {
     let (b1, rb1) = any_bgpsec_filter();
     let mut f = ValidationOutputFilters::new(vec![p0, p1], vec![b0, b1]);
     let has_aspa: bool = kani::any();
-    let a = if has_aspa {
+    // The filter lists are public fields: the ASPA list is either part of
+    // the value the file is created from or assigned to the file afterwards
+    // (solver's choice) -- the drop decision must not depend on which.
+    let late: bool = kani::any();
+    let (list, a) = if has_aspa {
         let (a0, ra0) = any_aspa_filter();
         let (a1, ra1) = any_aspa_filter();
-        f.aspa = Some(vec![a0, a1]);
-        Some([ra0, ra1])
+        (Some(vec![a0, a1]), Some([ra0, ra1]))
     } else {
-        None
+        (None, None)
     };
-    let file = SlurmFile::new(f, LocallyAddedAssertions::default());
+    let file = if late {
+        let mut file = SlurmFile::new(f, LocallyAddedAssertions::default());
+        file.filters.aspa = list;
+        file
+    } else {
+        f.aspa = list;
+        SlurmFile::new(f, LocallyAddedAssertions::default())
+    };
     Filters { file, p: [rp0, rp1], b: [rb0, rb1], a }
 }
 
